@@ -13,6 +13,11 @@
 //	                 net.DialTimeout("tcp", a, d) -> vnet.DialTimeout(net.DialTimeout, "tcp", a, d)
 //	swap:P=S         import "P" -> import P "<shimroot>/S"  (package S re-exports what is used)
 //	select           select{...} -> switch over vsel.Wait(...), bodies untouched
+//	yield            vsel.Yield("file:line") after every statement that can wake another goroutine
+//	                 (close(ch), ch <- v, go f(), x.Unlock(), x.RUnlock(), x.Done(), x.Signal(),
+//	                 x.Broadcast(), x.Close(..)) and inside `defer close(ch)` / `defer x.Done()`:
+//	                 preemption points for the explorer (the current goroutine steps aside and the
+//	                 goroutine it has just made runnable runs first)
 //
 // A transform that finds nothing to do is an error (exit 2): the machinery must not
 // silently run uninstrumented code.
@@ -102,6 +107,13 @@ func rewriteFile(src, dst string, transforms []string) error {
 			if !swapImport(f, kv[0], shimRoot+kv[1]) {
 				return fmt.Errorf("transform %s: import %q not found", tr, kv[0])
 			}
+		case tr == "yield":
+			y := &yieldRewriter{fset: fset, file: filepath.Base(src)}
+			y.run(f)
+			if y.count == 0 {
+				return fmt.Errorf("transform yield: no wake-up statement found")
+			}
+			addImport(f, "", shimRoot+"vsel")
 		case tr == "select":
 			r := &selRewriter{fset: fset, file: filepath.Base(src)}
 			r.run(f)
@@ -322,4 +334,85 @@ func (r *selRewriter) rewrite(sel *ast.SelectStmt, label *ast.Ident) ast.Stmt {
 		swStmt = &ast.LabeledStmt{Label: label, Stmt: sw}
 	}
 	return &ast.BlockStmt{List: append(pre, swStmt)}
+}
+
+// ---------------------------------------------------------------------------
+// yield points
+
+type yieldRewriter struct {
+	fset  *token.FileSet
+	file  string
+	count int
+	made  map[*ast.BlockStmt]bool // blocks this transform created
+}
+
+var wakeMethods = map[string]bool{"Unlock": true, "RUnlock": true, "Done": true, "Signal": true, "Broadcast": true, "Close": true}
+
+func (y *yieldRewriter) isWakeCall(e ast.Expr) bool {
+	call, ok := e.(*ast.CallExpr)
+	if !ok {
+		return false
+	}
+	switch fn := call.Fun.(type) {
+	case *ast.Ident:
+		return fn.Name == "close" && len(call.Args) == 1
+	case *ast.SelectorExpr:
+		return wakeMethods[fn.Sel.Name]
+	}
+	return false
+}
+
+func (y *yieldRewriter) yieldStmt(pos token.Pos) ast.Stmt {
+	y.count++
+	p := y.fset.Position(pos)
+	return &ast.ExprStmt{X: call("vsel", "Yield", strLit(fmt.Sprintf("%s:%d", y.file, p.Line)))}
+}
+
+func (y *yieldRewriter) fixList(list []ast.Stmt) []ast.Stmt {
+	var out []ast.Stmt
+	for _, st := range list {
+		switch x := st.(type) {
+		case *ast.ExprStmt:
+			out = append(out, st)
+			if y.isWakeCall(x.X) {
+				out = append(out, y.yieldStmt(x.Pos()))
+			}
+			continue
+		case *ast.SendStmt:
+			out = append(out, st, y.yieldStmt(x.Pos()))
+			continue
+		case *ast.GoStmt:
+			out = append(out, st, y.yieldStmt(x.Pos()))
+			continue
+		case *ast.DeferStmt:
+			if fn, ok := x.Call.Fun.(*ast.Ident); ok && fn.Name == "close" && len(x.Call.Args) == 1 {
+				// defer close(ch) -> defer func() { close(ch); vsel.Yield(..) }()
+				body := &ast.BlockStmt{List: []ast.Stmt{&ast.ExprStmt{X: x.Call}, y.yieldStmt(x.Pos())}}
+				if y.made == nil {
+					y.made = map[*ast.BlockStmt]bool{}
+				}
+				y.made[body] = true
+				x.Call = &ast.CallExpr{Fun: &ast.FuncLit{Type: &ast.FuncType{Params: &ast.FieldList{}}, Body: body}}
+			}
+		}
+		out = append(out, st)
+	}
+	return out
+}
+
+func (y *yieldRewriter) run(f *ast.File) {
+	ast.Inspect(f, func(n ast.Node) bool {
+		switch x := n.(type) {
+		case *ast.BlockStmt:
+			if y.made[x] {
+				return false
+			}
+			x.List = y.fixList(x.List)
+		case *ast.CaseClause:
+			x.Body = y.fixList(x.Body)
+		case *ast.CommClause:
+			x.Body = y.fixList(x.Body)
+		}
+		return true
+	})
 }
